@@ -280,6 +280,23 @@ def install_pins():
 
     knitpack_repo.sorted = det_sorted
 
+    # The index classes themselves order by address (and the Rust record-stream code
+    # sorts read requests by index object): give them a content-determined order.
+    from bzrformats import btree_index
+    from bzrformats import index as _index
+
+    def _key(ix):
+        try:
+            return (str(ix._name), str(ix._transport.base))
+        except Exception:  # noqa: BLE001
+            return ("", "")
+
+    for cls in (_index.GraphIndex, btree_index.BTreeGraphIndex):
+        cls.__lt__ = lambda a, b: _key(a) < _key(b)
+        cls.__gt__ = lambda a, b: _key(a) > _key(b)
+        cls.__le__ = lambda a, b: _key(a) <= _key(b)
+        cls.__ge__ = lambda a, b: _key(a) >= _key(b)
+
 
 def fmt_obj(fmt):
     from breezy import controldir
